@@ -114,6 +114,15 @@ mechanism the total delivery of `phase` abstracts for nodes that are more than o
 not use it. -/
 def partitioned (k p : Nat) : Bool := decide (3 ≤ k ∨ 3 ≤ p)
 
+/-- `bundleFresh` of `agreement/voteAggregator.go`, as the synchronous phase relies on it: a node in round `r`, period `p`
+accepts a bundle of its own round iff it is a cert bundle or its period is `≥ p - 1`.  In particular the rule does NOT look at
+the bundle's step nor at the step at which the node left the previous period (`LastConcluding`): a next bundle of the period the
+node has just concluded is always accepted.  That is what `deliver` assumes when it lets a node that is already in period `p`
+cache EVERY next threshold of `p - 1` (a node that entered `p` on a late value quorum must still learn of an earlier ⊥ quorum
+from the re-broadcast bundle, or the period stays split).  Tied to the real function on a grid by `TestVerifC05Player`. -/
+def bundleFresh (playerRound playerPeriod bundleRound bundlePeriod bundleStep : Nat) : Bool :=
+  bundleRound == playerRound && (bundleStep == 2 || !(playerPeriod != 0 && decide (bundlePeriod < playerPeriod - 1)))
+
 /-! ### delivery -/
 
 def nextVals (P : Params) (h : List Ev) (q : Nat) : List Val :=
